@@ -424,13 +424,13 @@ theorem compMassCore_label (env : Env) (mono : Bool) (b : Annotation) (ion : Key
       | nil => exact absurd hb hne
       | cons m ms => rfl
   have hsb3 : seqBaseComp (popped env (dropLabile b ion)) ion = .ok sb := by
-    rw [← hsb]; unfold seqBaseComp carrierComp; rw [hseq3, hadd3, hch3]
+    rw [← hsb]; unfold seqBaseComp carrierComp effAdducts; rw [hseq3, hadd3, hch3]
   have hcheck : carrierCheck (popped env (dropLabile b ion)) ion = .ok () := by
-    unfold carrierCheck; rw [hadd3]
+    unfold carrierCheck effAdducts; rw [hadd3]
     cases hb : b.adducts with
     | some l => cases l with
       | nil => exact absurd hb hne
-      | cons m ms => rfl
+      | cons m ms => cases ms <;> rfl
     | none =>
       rcases hcc hb with h | h | h
       · simp [h]; rfl
@@ -538,7 +538,8 @@ theorem mass_label_of_tables (hI : ionTablesOk = true) (env : Env) (a : Annotati
     have hr : resolveArgs a o = .ok ⟨effCharge a o, none, some L⟩ := by
       unfold resolveArgs; rw [had, had', hL]; rfl
     have hcm : compMass env a o.ion (effCharge a o) o.isotope none (some L) o.useIsotopeOnMods = _ :=
-      (compMass_eq_core env a o.ion (effCharge a o) o.isotope none (some L) o.useIsotopeOnMods).trans hcore
+      (compMass_eq_core env a o.ion (effCharge a o) o.isotope none (some L) o.useIsotopeOnMods
+        (staticProbe_none env _ (f1.trans hstatic))).trans hcore
     have hk := hknown _ _ hcm
     unfold mass massWith
     rw [hr, bind_ok]
